@@ -26,10 +26,10 @@ RULE = ("programs: exprgen (0-4 dims, dims 0-13, chunks 1..dim+1, 13 dtypes, 35 
 ASSUMPTIONS = [
     "NumPy's kernel on one block is the reference function on that block (nxp.repeat/flip/concat/expand_dims/sum ...): modelled, validated by eval requests and the direct oracle",
     "zarr's OrthogonalIndexer on a regular grid yields the blocks containing selected elements, ascending per axis, C-order product: modelled (Ops.selBlocks), validated on every compared key function",
-    "zarr chunk writes cut a too-large block to the chunk region and broadcast a size-1 dimension (Ops.bcastIndex): modelled, validated against the real stack result on mixed chunkings",
+    "zarr chunk writes cut a too-large block to the chunk region and broadcast a size-1 dimension (Ops.bcastIndex): only matters for the OLD stack variant (theorem C01_stack_old_variant_fails); it was validated against the real results before f3856f5 and is no longer observable",
     "tree_reduce depth = ceil(log(nb, k)) is computed in floating point: the theorem takes the depth as given and assumes k^depth >= nb; checked on every reduction met",
     "reshape_chunks is only correct when dask's reshape_rechunk aligned the in/out blocks linearly (vendored code, not modelled): theorem covers the key function (bijection) only",
-    "scan is modelled for nb <= 5 or 5 | nb along the axis (otherwise the code raises AssertionError while building = decline)",
+    "scan: one level is proved given the increment spec (recursion and the partial_reduce that builds the per-block totals are not unfolded); acceptance for every block count is proved and checked on 1..39 blocks",
     "float reductions are compared with tolerance (rounding depends on association); results downstream of a discontinuous op applied to such a value are not compared (exprgen.output_info 'unstable')",
 ]
 TRUSTED = ["modelled not verified: zarr indexer and chunk write broadcasting, NumPy kernels per block, dask reshape_rechunk, float math.log in tree_reduce depth, dtype promotion"]
@@ -413,51 +413,51 @@ def family_cases(ctx, n):
                 y, ref = xp.tile(a, reps), np.tile(an, reps)
         except (DECLINE + (AssertionError, ZeroDivisionError)) as e:
             ctx.dist["corr:decline:" + fam] += 1
-            if fam == "scan" and isinstance(e, AssertionError):
-                yield dict(case, declined="AssertionError"), None, None
             continue
         yield case, [y], ref
 
 
 def corr_scan_accepts(ctx, batch):
-    """The build-time assertion of scan vs the model's `scanAccepts` (the call recurses on the reduced array:
-    the whole call is accepted iff every level is)."""
-    import numpy as np
-
+    """scan's build-time assertion vs `scanAccepts` (holds for every block count since 5fff6ae) and the chunk sizes
+    declared for the per-block totals (`increment.chunks[axis]` of every level) vs `scanReducedSizes`."""
     import inspect
+
+    import numpy as np
 
     import cubed.array_api as xp
     from cubed.core.ops import scan
     spec = _spec()
     S = inspect.signature(scan).parameters["split_every"].default   # 5 in the pinned tree
-    nbs = list(range(1, 32)) if ctx.tier == "thorough" else sorted(ctx.rng.sample(range(1, 32), 12) + [5, 6, 10])
-    impl = {}
+    nbs = list(range(1, 40)) if ctx.tier == "thorough" else sorted(set(ctx.rng.sample(range(1, 40), 12) + [5, 6, 7, 10, 11, 26]))
     for nb in nbs:
         c = ctx.rng.choice([1, 2])
         a = xp.asarray(np.arange(nb * c), chunks=c, spec=spec)
         try:
-            xp.cumulative_sum(a)
-            impl[nb] = "true"
+            y = xp.cumulative_sum(a)
+            impl = "true"
         except AssertionError:
-            impl[nb] = "false"
-    levels = {}
-    for nb in nbs:
-        chain, m = [], nb
-        while m > 1:
-            chain.append(m)
-            m = -(-m // min(S, m)) if m > S else 1
-        levels[nb] = chain
-    ans = {}
-    for m in sorted({m for ch in levels.values() for m in ch}):
-        batch.add("accepts|scan|%d|%d" % (S, m), lambda a, m=m: ans.__setitem__(m, a))
+            y, impl = None, "false"
 
-    def final():
-        for nb in nbs:
-            model = "true" if all(ans[m] == "true" for m in levels[nb]) else "false"
-            ctx.count({"scan_accepts": nb, "impl": impl[nb]}, nontrivial=nb > 1, kind="accepts:scan")
-            if model != impl[nb]:
-                ctx.disagree("scanAccepts = (no AssertionError in scan)", {"numblocks": nb}, model, impl[nb])
-    batch.finals = getattr(batch, "finals", []) + [final]
+        def h(ans, nb=nb, impl=impl):
+            ctx.count({"scan_accepts": nb, "impl": impl}, nontrivial=nb > 1, kind="accepts:scan")
+            if ans != impl:
+                ctx.disagree("scanAccepts = (no AssertionError in scan)", {"numblocks": nb}, ans, impl)
+        batch.add("accepts|scan|%d|%d" % (S, nb), h)
+        if y is None:
+            continue
+        for name, d, dag in plan_ops([y]):
+            kf, _ = unwrap(d["primitive_op"].pipeline.config.back_key_function)
+            if getattr(kf, "__qualname__", "").startswith("scan.<locals>"):
+                cv = closure_vars(kf)
+                ax = cv["axis"]
+                level_nb = cv["scanned"].numblocks[ax]
+                real = nl(cv["increment"].chunks[ax])
+
+                def h2(ans, level_nb=level_nb, real=real):
+                    ctx.count({"scan_reduced_sizes": level_nb, "impl": real}, nontrivial=level_nb > 1, kind="scan:reduced-sizes")
+                    if ans != real:
+                        ctx.disagree("scanReducedSizes = declared chunks of the increment array", {"numblocks": level_nb}, ans, real)
+                batch.add("util|scanreduced|%d|%d" % (cv["split_every"], level_nb), h2)
 
 
 def corr_utils(ctx, batch):
@@ -534,7 +534,7 @@ def corr_eval(ctx, batch):
         arrs = [j * 1000 + A for j in range(k2)]
         ref = np.stack(arrs, axis=ax2)
         reqs.append("eval|stack|%d|%s|%s|%s" % (ax2, nll([shp] * k2), nll([cs] * k2), nl(ref.shape))); want.append(nl(ref.ravel())); info.append("np.stack")
-    # stack with mixed chunkings: model vs the real code
+    # stack with mixed chunkings (unified since f3856f5): model (stackUnified) vs the real result
     for _ in range(ctx.budget(6, 30)):
         n = rng.randint(2, 6)
         c0, c1 = rng.randint(1, n), rng.randint(1, n)
@@ -548,9 +548,22 @@ def corr_eval(ctx, batch):
         reqs.append("eval|stack|0|%s|%s|%s" % (nll([[n], [n]]), nll([[c0], [c1]]), nl([2, n])))
         want.append(real)
         info.append("real stack (mixed chunks %d/%d)" % (c0, c1))
+    # stack refuses inputs of different shapes
+    for _ in range(ctx.budget(6, 30)):
+        shapes = [[rng.randint(1, 3) for _ in range(2)] for _ in range(rng.randint(1, 3))]
+        if rng.random() < 0.5:
+            shapes = [shapes[0]] * len(shapes)
+        try:
+            xp.stack([xp.asarray(np.zeros(sh), chunks=1, spec=spec) for sh in shapes], axis=0)
+            real = "true"
+        except ValueError:
+            real = "false"
+        reqs.append("accepts|stack|%s" % nll(shapes))
+        want.append(real)
+        info.append("stack accepts equal shapes only")
     def h(rq, w, i):
         def f(a):
-            ctx.count({"eval": rq}, nontrivial=True, kind="eval:" + rq.split("|")[1])
+            ctx.count({"eval": rq}, nontrivial=True, kind="%s:%s" % (rq.split("|")[0], rq.split("|")[1]))
             if w is None:
                 if "x" not in a.split(","):
                     ctx.disagree("stackEval fails <-> the real task fails", {"request": rq}, a, "exception")
@@ -675,117 +688,6 @@ def run_program(p, executor_name="single-threaded", optimize=True, spec=None, bu
     return "ok", None
 
 
-def _variant_passes(orig, variant_desc, executor_name, optimize):
-    """Build cubed arrays from the variant, compare with the NumPy reference of the original program."""
-    import cubed
-    import cubed.array_api as xp
-    import exprgen
-    v = exprgen.Program.from_description(variant_desc)
-    try:
-        ref = orig.numpy()
-        info = orig.output_info()
-        arrs = v.build(xp, _spec())
-        ex = make_executor(executor_name)
-        res = [arrs[0].compute(executor=ex, optimize_graph=optimize)] if len(arrs) == 1 else list(cubed.compute(*arrs, executor=ex, optimize_graph=optimize))
-    except Exception:
-        return False
-    return all(exprgen.compare_values(r, a, i) is None for r, a, i in zip(ref, res, info))
-
-
-def _insert_before(desc, op_index, operand_pos, new_op):
-    """Insert `new_op` (applied to operand `operand_pos` of ops[op_index]) and rewire that operand."""
-    import copy
-    d = copy.deepcopy(desc)
-    ni = len(d["inputs"])
-    tgt = ni + op_index
-    src = d["ops"][op_index]["in"][operand_pos]
-    new = dict(new_op, **{"in": [src]})
-
-    def shift(v):
-        return v + 1 if v >= tgt else v
-    for o in d["ops"]:
-        o["in"] = [shift(v) for v in o["in"]]
-    d["outputs"] = [shift(v) for v in d["outputs"]]
-    d["ops"].insert(op_index, new)
-    d["ops"][op_index + 1]["in"][operand_pos] = tgt
-    return d
-
-
-def classify(p, executor_name, optimize):
-    """Name of the known defect that explains the failure of the (shrunk) program `p`, or None.
-    Each classifier = call site + triggering condition on the built arrays + counterfactual (the same program
-    with the trigger removed computes the NumPy value)."""
-    import cubed.array_api as xp
-    desc = p.describe()
-    try:
-        vals = p.build(xp, _spec(), all_values=True)
-    except Exception:
-        return None
-    ni = len(desc["inputs"])
-    # 1. stack of arrays with different chunkings
-    for j, o in enumerate(desc["ops"]):
-        if o["op"] == "stack":
-            ops_ = [vals[i] for i in o["in"]]
-            if len({a.chunks for a in ops_}) > 1 and len({a.shape for a in ops_}) == 1:
-                d = desc
-                first = ops_[0]
-                # rechunk every later operand to the chunking of the first (what "unify chunks" would do)
-                jj = j
-                for pos in range(len(o["in"]) - 1, 0, -1):
-                    if ops_[pos].chunks != first.chunks:
-                        d = _insert_before(d, jj, pos, {"op": "rechunk", "family": "rechunk", "params": {"chunks": list(first.chunksize)}})
-                        jj += 1
-                if first.ndim == 0 or _variant_passes(p, d, executor_name, optimize):
-                    return "stack-mixed-chunks"
-    # 2. qr with a row chunk shorter than the number of columns
-    for j, o in enumerate(desc["ops"]):
-        if o["op"] == "qr":
-            x = vals[o["in"][0]]
-            if x.ndim == 2 and x.shape[0] < x.shape[1]:
-                return "qr-short-row-chunk"   # wide matrix: every row block is shorter than the column count
-            if x.ndim == 2 and min(x.chunks[0]) < x.shape[1]:
-                d = _insert_before(desc, j, 0, {"op": "rechunk", "family": "rechunk", "params": {"chunks": [max(1, x.shape[0]), max(1, x.shape[1])]}})
-                if _variant_passes(p, d, executor_name, optimize):
-                    return "qr-short-row-chunk"
-    # 3. vecdot of complex arrays does not conjugate x1
-    for j, o in enumerate(desc["ops"]):
-        if o["op"] == "vecdot":
-            x1 = vals[o["in"][0]]
-            if x1.dtype.kind == "c":
-                d = _insert_before(desc, j, 0, {"op": "conj", "family": "unary", "params": {"_k": "unary"}})
-                if _variant_passes(p, d, executor_name, optimize):
-                    return "vecdot-complex-no-conj"
-    # 6. hypot of integer arrays declares an integer result: the float values are truncated
-    for j, o in enumerate(desc["ops"]):
-        if o["op"] == "hypot" and o["params"].get("_k") == "binary":
-            a0, a1 = vals[o["in"][0]], vals[o["in"][1]]
-            if a0.dtype.kind in "iu" and a1.dtype.kind in "iu":
-                cast = {"op": "astype", "family": "astype", "params": {"dtype": "float64"}}
-                d = _insert_before(desc, j, 0, cast)
-                d = _insert_before(d, j + 1, 1, cast)
-                if _variant_passes(p, d, executor_name, optimize):
-                    return "hypot-int-truncated"
-    # 5. var / std with fewer elements than the correction: -0.0 instead of NaN
-    for j, o in enumerate(desc["ops"]):
-        if o["op"] in ("var", "std") and o["params"].get("correction", 0) > 0:
-            x = vals[o["in"][0]]
-            ax = o["params"]["axis"]
-            axes = list(range(x.ndim)) if ax is None else ([ax] if isinstance(ax, int) else list(ax))
-            n = 1
-            for a_ in axes:
-                n *= x.shape[a_]
-            if n < o["params"]["correction"]:
-                import copy
-
-                import exprgen
-                d = copy.deepcopy(desc)
-                d["ops"][j]["params"]["correction"] = 0
-                q = exprgen.Program.from_description(d)
-                if run_program(q, executor_name, optimize)[0] == "ok":
-                    return "var-negative-dof"
-    return None
-
-
 _POOL = None
 
 
@@ -873,7 +775,7 @@ def report_failure(ctx, p, ex, opt, detail, max_evals=250):
     else:
         small = exprgen.shrink(p, still, max_evals=max_evals)
     st, det = run_program(small, sh_ex, opt)
-    key = classify(small, sh_ex, opt) if st == "wrong" else None
+    key = None   # no known findings are listed for C01: every wrong value is a violation
     if key is None:
         import json
         ctx.notes.append("unclassified failure: " + json.dumps({"program": small.describe(), "executor": sh_ex, "optimize_graph": opt, "what": det or detail})[:1500])
@@ -884,51 +786,73 @@ def report_failure(ctx, p, ex, opt, detail, max_evals=250):
              key=key)
 
 
-# defects that were repaired in /repo (fix: commits): their former triggers must now compute the NumPy value
+# defects that were repaired in /repo (fix: commits): their former triggers are must-hold regression cases.
+# value = (program description, expected status): "ok" = computes the NumPy value, "decline" = explicit error at build time
+def _prog(inputs, ops, outputs):
+    return {"inputs": inputs, "ops": ops, "outputs": outputs}
+
+
+def _inp(shape, chunks, dtype="int64", data="arange", salt=0):
+    return {"shape": shape, "chunks": chunks, "dtype": dtype, "data": data, "salt": salt}
+
+
+def _cumsum_blocks(nb):
+    return (_prog([_inp([2 * nb + 1 if nb > 1 else 1, 3], [2, 2])],
+                  [{"op": "cumulative_sum", "family": "cumulative", "in": [0], "params": {"axis": 0}}], [1]), "ok")
+
+
 FIXED_TRIGGERS = {
     # 2fe4874 "fix: flip the right axis when a negative-step slice follows an integer index"
-    "index-negstep-after-int": {"inputs": [{"shape": [2, 3, 4], "chunks": [1, 2, 3], "dtype": "int64", "data": "arange", "salt": 0}],
-                                "ops": [{"op": "index", "family": "index", "in": [0], "params": {"key": [{"t": "int", "v": 0}, {"t": "slice", "v": [None, None, -1]}, {"t": "slice", "v": [None, None, None]}]}}],
-                                "outputs": [1]},
-    "index-negstep-after-two-ints": {"inputs": [{"shape": [2, 3, 4, 5], "chunks": [1, 2, 3, 2], "dtype": "int64", "data": "arange", "salt": 0}],
-                                     "ops": [{"op": "index", "family": "index", "in": [0], "params": {"key": [{"t": "int", "v": 1}, {"t": "slice", "v": [None, None, -2]}, {"t": "int", "v": -1}, {"t": "slice", "v": [4, 0, -1]}]}}],
-                                     "outputs": [1]},
+    "index-negstep-after-int": (_prog([_inp([2, 3, 4], [1, 2, 3])],
+                                      [{"op": "index", "family": "index", "in": [0], "params": {"key": [{"t": "int", "v": 0}, {"t": "slice", "v": [None, None, -1]}, {"t": "slice", "v": [None, None, None]}]}}], [1]), "ok"),
+    "index-negstep-after-two-ints": (_prog([_inp([2, 3, 4, 5], [1, 2, 3, 2])],
+                                           [{"op": "index", "family": "index", "in": [0], "params": {"key": [{"t": "int", "v": 1}, {"t": "slice", "v": [None, None, -2]}, {"t": "int", "v": -1}, {"t": "slice", "v": [4, 0, -1]}]}}], [1]), "ok"),
+    # f3856f5 "fix: stack checks input shapes and unifies input chunks"
+    "stack-mixed-chunks": (_prog([_inp([2], [2]), _inp([2], [1], salt=1)],
+                                 [{"op": "stack", "family": "stack", "in": [0, 1], "params": {"axis": 0}}], [2]), "ok"),
+    "stack-mixed-chunks-2d": (_prog([_inp([5, 4], [2, 3]), _inp([5, 4], [3, 1], salt=1), _inp([5, 4], [5, 4], salt=2)],
+                                    [{"op": "stack", "family": "stack", "in": [1, 0, 2], "params": {"axis": 1}}], [3]), "ok"),
+    # 19968d0 "fix: qr/svd reject row chunks with fewer rows than columns"
+    "qr-short-row-chunk": (_prog([_inp([9, 4], [4, 4], "float64", "perm:0")],
+                                 [{"op": "qr", "family": "qr", "in": [0], "params": {"part": "recon"}}], [1]), "decline"),
+    "qr-wide": (_prog([_inp([1, 2], [2, 2], "float64", "perm:0")],
+                      [{"op": "qr", "family": "qr", "in": [0], "params": {"part": "gram"}}], [1]), "decline"),
+    "qr-full-row-chunks": (_prog([_inp([8, 4], [4, 4], "float64", "perm:0")],
+                                 [{"op": "qr", "family": "qr", "in": [0], "params": {"part": "recon"}}], [1]), "ok"),
+    # a0e6d48 "fix: vecdot conjugates its first argument for complex inputs"
+    "vecdot-complex": (_prog([_inp([2], [1], "complex128")],
+                             [{"op": "vecdot", "family": "vecdot", "in": [0, 0], "params": {"axis": -1}}], [1]), "ok"),
+    # d99e354 "fix: hypot only accepts real floating-point dtypes"
+    "hypot-int": (_prog([_inp([2], [1], salt=3)],
+                        [{"op": "hypot", "family": "binary", "in": [0, 0], "params": {"_k": "binary"}}], [1]), "decline"),
+    # bb56857 "fix: var/std clamp the degrees of freedom at zero"
+    "var-correction-gt-n": (_prog([_inp([1, 1], [1, 1], "float64")],
+                                  [{"op": "var", "family": "reduce", "in": [0], "params": {"axis": 1, "keepdims": False, "split_every": None, "correction": 2}}], [1]), "ok"),
+    "std-empty-axis-correction": (_prog([_inp([2, 0], [1, 1], "float64")],
+                                        [{"op": "std", "family": "reduce", "in": [0], "params": {"axis": 1, "keepdims": False, "split_every": None, "correction": 1}}], [1]), "ok"),
+    # 5fff6ae "fix: scan handles block counts that are not a multiple of the group size"
+    "cumsum-6-blocks": _cumsum_blocks(6),
+    "cumsum-7-blocks": _cumsum_blocks(7),
+    "cumsum-11-blocks": _cumsum_blocks(11),
+    "cumsum-26-blocks": _cumsum_blocks(26),
+    "cumprod-12-blocks": (_prog([_inp([12], [1], "int64")],
+                                [{"op": "cumulative_prod", "family": "cumulative", "in": [0], "params": {"axis": 0}}], [1]), "ok"),
 }
 
 
 def known_triggers(ctx):
-    """Re-verify the listed defects on their minimal triggers (so that a fix shows up as a changed status)."""
+    """Former triggers of repaired defects: a wrong value, an execution error or a missing decline is an unlisted failure."""
     import exprgen
-    trig = {
-        "stack-mixed-chunks": {"inputs": [{"shape": [2], "chunks": [2], "dtype": "int64", "data": "arange", "salt": 0},
-                                          {"shape": [2], "chunks": [1], "dtype": "int64", "data": "arange", "salt": 1}],
-                               "ops": [{"op": "stack", "family": "stack", "in": [0, 1], "params": {"axis": 0}}], "outputs": [2]},
-        "qr-short-row-chunk": {"inputs": [{"shape": [9, 4], "chunks": [4, 4], "dtype": "float64", "data": "perm:0", "salt": 0}],
-                               "ops": [{"op": "qr", "family": "qr", "in": [0], "params": {"part": "recon"}}], "outputs": [1]},
-        "vecdot-complex-no-conj": {"inputs": [{"shape": [2], "chunks": [1], "dtype": "complex128", "data": "arange", "salt": 0}],
-                                   "ops": [{"op": "vecdot", "family": "vecdot", "in": [0, 0], "params": {"axis": -1}}], "outputs": [1]},
-        "hypot-int-truncated": {"inputs": [{"shape": [2], "chunks": [1], "dtype": "int64", "data": "arange", "salt": 3}],
-                                "ops": [{"op": "hypot", "family": "binary", "in": [0, 0], "params": {"_k": "binary"}}], "outputs": [1]},
-        "var-negative-dof": {"inputs": [{"shape": [1, 1], "chunks": [1, 1], "dtype": "float64", "data": "arange", "salt": 0}],
-                             "ops": [{"op": "var", "family": "reduce", "in": [0], "params": {"axis": 1, "keepdims": False, "split_every": None, "correction": 2}}],
-                             "outputs": [1]},
-    }
-    for key, d in trig.items():
-        p = exprgen.Program.from_description(d)
-        st, det = run_program(p, "single-threaded", True)
-        ctx.count({"trigger": key, "status": st}, nontrivial=True, kind="trigger:" + st)
-        if st == "wrong":
-            k = classify(p, "single-threaded", True)
-            ctx.fail("known trigger still fails: %s" % det, {"program": d, "executor": "single-threaded", "optimize_graph": True}, key=k)
-        else:
-            ctx.notes.append("known trigger %s now gives status %s (defect repaired? update KNOWN_FINDINGS / model)" % (key, st))
-    for name, d in FIXED_TRIGGERS.items():
+    for name, (d, want) in FIXED_TRIGGERS.items():
         p = exprgen.Program.from_description(d)
         for ex, opt in (("single-threaded", True), ("threads", False)):
             st, det = run_program(p, ex, opt)
             ctx.count({"fixed_trigger": name, "executor": ex, "status": st}, nontrivial=True, kind="fixed-trigger:" + st)
-            if st != "ok":
-                ctx.fail("repaired defect is back (%s): status %s %s" % (name, st, det or ""), {"program": d, "executor": ex, "optimize_graph": opt}, key=None)
+            if st != want:
+                ctx.fail("repaired defect is back (%s): expected %s, got status %s %s" % (name, want, st, det or ""),
+                         {"program": d, "executor": ex, "optimize_graph": opt}, key=None)
+            if want == "decline":
+                break
 
 
 def replay(ctx, body):
@@ -944,7 +868,7 @@ def replay(ctx, body):
     print("replay: status=%s %s" % (st, det or ""))
     print("replay: NumPy gives", [v.tolist() if v.size <= 64 else v.shape for v in p.numpy()])
     if st == "wrong":
-        ctx.fail("replayed: %s" % det, case, key=classify(p, case.get("executor", "single-threaded"), case.get("optimize_graph", True)))
+        ctx.fail("replayed: %s" % det, case, key=None)
 
 
 def oracle(ctx):
